@@ -185,4 +185,10 @@ class DeserializationRefsExtractor(
 class SerializationRefsExtractor(
     RefsExtractor, SerializationVisitor, SerializationObjectVisitor
 ):
-    pass
+    def object(self, tp: AnyType, fields: Sequence[ObjectField]):
+        super().object(tp, fields)
+        # serialized methods are properties of the serialization schema too
+        from apischema.serialization.serialized_methods import get_serialized_methods
+
+        for serialized, types in get_serialized_methods(tp):
+            self.visit_with_conv(types["return"], serialized.conversion)
